@@ -378,3 +378,45 @@ LANGS = {
     'en-us': (english, 10 ** 15), 'es-es': (spanish, 10 ** 6), 'fr-fr': (french, 10 ** 6), 'pt-br': (portuguese, 10 ** 6), 'de-de': (german, 10 ** 6),
     'it-it': (italian, 10 ** 6), 'nl-nl': (dutch, 10 ** 6), 'zh-cn': (chinese, 10 ** 12), 'ja-jp': (japanese, 10 ** 12),
 }
+
+
+# ------------------------------------------------------------------------------------------------ ordinals (German, Dutch)
+DE_ORD_SMALL = {1: 'erste', 2: 'zweite', 3: 'dritte', 4: 'vierte', 5: 'fünfte', 6: 'sechste', 7: 'siebte', 8: 'achte', 9: 'neunte', 10: 'zehnte', 11: 'elfte',
+                12: 'zwölfte', 13: 'dreizehnte', 14: 'vierzehnte', 15: 'fünfzehnte', 16: 'sechzehnte', 17: 'siebzehnte', 18: 'achtzehnte', 19: 'neunzehnte'}
+
+
+def german_ordinal(n):
+    """einundzwanzigste, einhunderterste, zweitausenddritte, tausendste ... (0 < n < 10^6)"""
+    th, r = divmod(n, 1000)
+    head = (_de_lt1000(th, final=False) + 'tausend') if th else ''
+    if r == 0:
+        return [('std', head + 'ste')]
+    h, rr = divmod(r, 100)
+    mid = (DE_U[h] + 'hundert') if h else ''
+    if rr == 0:
+        return [('std', head + mid + 'ste')]
+    if rr < 20:
+        return [('std', head + mid + DE_ORD_SMALL[rr])]
+    return [('std', head + mid + _de_lt100(rr) + 'ste')]
+
+
+NL_ORD_SMALL = {1: 'eerste', 2: 'tweede', 3: 'derde', 4: 'vierde', 5: 'vijfde', 6: 'zesde', 7: 'zevende', 8: 'achtste', 9: 'negende', 10: 'tiende', 11: 'elfde',
+                12: 'twaalfde', 13: 'dertiende', 14: 'veertiende', 15: 'vijftiende', 16: 'zestiende', 17: 'zeventiende', 18: 'achttiende', 19: 'negentiende'}
+
+
+def dutch_ordinal(n):
+    th, r = divmod(n, 1000)
+    head = ('duizend' if th == 1 else _nl_lt1000(th) + 'duizend') if th else ''
+    if r == 0:
+        return [('std', head + 'ste')]
+    h, rr = divmod(r, 100)
+    mid = ('honderd' if h == 1 else NL_U[h] + 'honderd') if h else ''
+    sep = ' ' if head else ''
+    if rr == 0:
+        return [('std', head + sep + mid + 'ste')]
+    if rr < 20:
+        return [('std', head + sep + mid + NL_ORD_SMALL[rr])]
+    return [('std', head + sep + mid + _nl_lt100(rr) + 'ste')]
+
+
+ORDINALS = {'de-de': german_ordinal, 'nl-nl': dutch_ordinal}
